@@ -73,7 +73,7 @@ func registerKinds() {
 	kinds["cran"] = kindDef{typ: "cran", eco: "eco_cran", requires: "Semantic.Cran", print: printCran}
 	kinds["rubygems"] = kindDef{typ: "rubygems", eco: "eco_rubygems", requires: "Semantic.Rubygems", print: printRubygems}
 	kinds["debian"] = kindDef{typ: "debian", eco: "eco_debian", requires: "Semantic.Debian", print: printDebian}
-	kinds["pypi"] = kindDef{typ: "pypi", eco: "eco_pypi", requires: "Semantic.Pypi", print: printPypi}
+	kinds["pypi"] = kindDef{typ: "pypi", eco: "eco_pypi", requires: "Semantic.Pypi Semantic.PypiParse", print: printPypi, lowers: true}
 	kinds["packagist"] = kindDef{typ: "packagist", eco: "eco_packagist", requires: "Semantic.Packagist", print: printPackagist}
 	kinds["alpine"] = kindDef{typ: "alpine", eco: "eco_alpine", requires: "Semantic.Alpine", print: printAlpine}
 	kinds["maven"] = kindDef{typ: "maven", eco: "eco_maven", requires: "Semantic.Maven", print: printMaven, lowers: true}
